@@ -73,22 +73,28 @@ func (e *Engine) recordRace(st *State, p Ptr, a, b ssa.Instruction, aw, bw bool)
 		aw, bw = bw, aw
 	}
 	key := pa + " / " + pb
-	if _, ok := e.Races[key]; ok {
+	e.mu.Lock()
+	_, dup := e.Races[key]
+	e.mu.Unlock()
+	if dup {
 		return
 	}
 	what := ""
 	if o := st.lookupObj(p.Obj); o != nil && o.T != nil {
 		what = fmt.Sprintf(" on %s+%d (allocated at %s)", o.T, p.Off, o.Site)
 	}
-	e.Races[key] = fmt.Sprintf("%s at %s races with %s at %s%s", rw(aw), pa, rw(bw), pb, what)
+	desc := fmt.Sprintf("%s at %s races with %s at %s%s", rw(aw), pa, rw(bw), pb, what)
+	e.mu.Lock()
+	e.Races[key] = desc
 	if a != nil {
 		e.RaceInstrs[a] = true
 	}
 	if b != nil {
 		e.RaceInstrs[b] = true
 	}
+	e.mu.Unlock()
 	if e.RaceIsViolation {
-		e.report(st, &Violation{Kind: "race", Label: "data race: " + e.Races[key], Cond: st.PC})
+		e.report(st, &Violation{Kind: "race", Label: "data race: " + desc, Cond: st.PC})
 	}
 }
 
